@@ -21,7 +21,7 @@ type CallSpec struct {
 
 // RespRule says what the scripted responder does with the k-th request it sees.
 type RespRule struct {
-	Mode    int `json:"mode"` // 0 answer now, 1 answer late, 2 never, 3 answer twice, 4 hold and answer after the next request (reorder), 5 answer with another id
+	Mode    int `json:"mode"` // 0 answer now, 1 answer late, 2 never, 3 answer twice, 4 hold and answer after the next request (reorder), 5 answer with another id, 6 answer and end the session right behind the answer (finished envelope, then close)
 	DelayMs int `json:"delay_ms"`
 }
 
@@ -60,6 +60,10 @@ func genC05(t *simrt.Tape, tier string) interface{} {
 	}
 	for i := 1 + t.Draw(6); i > 0; i-- {
 		p.Rules = append(p.Rules, RespRule{Mode: []int{0, 0, 0, 1, 1, 2, 3, 3, 4, 5}[t.Draw(10)], DelayMs: []int{1, 5, 20, 100, 400, 1000, 2500, 8000, 12000}[t.Draw(9)]})
+	}
+	if t.Draw(6) == 0 {
+		// the responder answers one of the requests and ends the session right behind its answer
+		p.Rules[t.Draw(len(p.Rules))].Mode = 6
 	}
 	for i := t.Draw(4); i > 0; i-- {
 		p.Unsol = append(p.Unsol, Unsol{AtMs: t.Draw(3000), ID: t.Draw(4)})
@@ -203,6 +207,7 @@ func runC05(w *World, pi interface{}) {
 		resps = append(resps, respRec{tag: tag, id: id, forCall: forCall, sentStep: simrt.Step(), sentAt: simrt.Now()})
 		peer.SendJSON(map[string]interface{}{"id": id, "method": "get", "status": "success", "metadata": map[string]interface{}{"tag": tag, "for": forCall}})
 	}
+	sessionEnded := false // the responder ended the session itself (mode 6)
 	// the responder
 	respDone := NewFlag()
 	stop := NewFlag()
@@ -256,6 +261,12 @@ func runC05(w *World, pi interface{}) {
 					hold = append(hold, held{id, call})
 				case 5:
 					sendResp(idPool[3], call)
+				case 6:
+					sendResp(id, call)
+					peer.SendJSON(map[string]interface{}{"state": "finished", "id": fstr(peer.LastSessionFrame(), "id"), "from": nodeVariants[0]})
+					sessionEnded = true
+					peer.Close()
+					return
 				}
 			}
 			seen = peer.NFrames()
@@ -331,7 +342,7 @@ func runC05(w *World, pi interface{}) {
 	// let late responses arrive and be routed; a last response nobody asked for probes that the
 	// receiver is still routing at all (it must come out on the response stream)
 	time.Sleep(5 * time.Second)
-	if !peer.RemoteClosed().IsSet() {
+	if !peer.RemoteClosed().IsSet() && !sessionEnded {
 		sendResp(idPool[3], "")
 	}
 	time.Sleep(10 * time.Second)
@@ -390,6 +401,16 @@ func runC05(w *World, pi interface{}) {
 		default:
 			if ch.Established() && !strings.Contains(c.errText, "transport") {
 				w.Count("call-other-error")
+			}
+			// neither its response nor its context's error, although its own response had been sent
+			// to it before it returned (the session may have ended right behind that response)
+			if p.Faults.Benign() {
+				for _, r := range resps {
+					if r.forCall == c.tag && r.id == c.id && r.sentStep < c.retStep {
+						w.Violate("C05.response-lost-to-another-error", sig("other"), "call %s (id %s) returned %q at step %d although its own response %s had been sent at step %d, and its context had not ended\n%s", c.tag, c.id, c.errText, c.retStep, r.tag, r.sentStep, dump())
+						break
+					}
+				}
 			}
 		}
 	}
@@ -522,6 +543,6 @@ func init() {
 		Rule: "plans = (1-6 concurrent caller tasks x 1-6 ProcessCommand calls with ids from a pool of 3 and context deadlines 5 ms..30 s; a scripted responder that per request answers now / late / never / twice / after the next request / with another id; unsolicited responses incl. unknown ids; " +
 			"channel buffer sizes incl. 0; response stream drained or not; benign link faults; in a fifth of the runs the in-process transport with a queue of 0-2 envelopes and a server that stops reading for a while, so that requests cannot be sent before their context ends); every request carries its call tag and every response a unique tag, invocations and returns are stamped with the scheduler's step number; " +
 			"oracle: interval reasoning over the history (own id only, context error only after the context ended, in-use only with an overlapping same-id call, no two accepted same-id calls pending at one moment (wire sight .. own response sent / context end), each response consumed at most once, unmatched responses on the stream, timely answers returned); " +
-			"non-trivial = session established; distinct = distinct (plan JSON, event-log hash)",
+			"a responder that may answer and end the session right behind its answer; a call ends with its own response or its context's error, never with another error once its response had been sent; non-trivial = session established; distinct = distinct (plan JSON, event-log hash)",
 	})
 }
